@@ -401,6 +401,24 @@ def timeout_flow(rep, ex: Explorer):
             if called_names(fi.node) & may:
                 may.add(fi.node.name)
                 changed = True
+    # helpers of the wrappers: functions all of whose call sites (by name) are inside a wrapper or another such helper; a
+    # handler that turns an expiry into a flagged row may live there (what it stores is decided by TIMEOUT.row on the
+    # wrappers' paths, which run through the helper)
+    callers = {}
+    for fi in funcs:
+        for nm in called_names(fi.node):
+            callers.setdefault(nm, set()).add(fi.qualname)
+    helpers = set(wrappers)
+    grew = True
+    while grew:
+        grew = False
+        for fi in funcs:
+            if fi.qualname in helpers:
+                continue
+            cs = callers.get(fi.node.name, set())
+            if cs and cs <= helpers:
+                helpers.add(fi.qualname)
+                grew = True
     n_handlers = 0
     for fi in funcs:
         for t in ast.walk(fi.node):
@@ -424,8 +442,8 @@ def timeout_flow(rep, ex: Explorer):
                     continue  # nothing under this handler can raise an expiry
                 n_handlers += 1
                 reraises = _always_raises(n.body)
-                if fi.qualname in wrappers and "TimeoutError" in types:
-                    rep.ok("TIMEOUT.flow", where, "wrapper handler", "the wrapper converts an expiry into a flagged row")
+                if fi.qualname in helpers and "TimeoutError" in types:
+                    rep.ok("TIMEOUT.flow", where, "wrapper handler", "the wrapper converts an expiry into a flagged row" + ("" if fi.qualname in wrappers else " (in a helper called only from the wrappers)"))
                     continue
                 rep.check(reraises, "TIMEOUT.flow", where, f"handler for {'/'.join(types)}", "a handler that can catch an expiry re-raises it",
                           extracted="re-raises" if reraises else "swallows", required="re-raise", function=f"{fi.path}:{fi.qualname[len(fi.module) + 1:]}")
